@@ -107,6 +107,9 @@ pub fn check_history(h: &Hist) -> Result<(bool, Vec<&'static str>), Failure> {
             Op::Took(EventView::State(StateView::Idle)) => in_reboot_wait = false,
             Op::NextTime { .. } => {
                 // loop top: if a report is pending and the clocks are consistent it must have been made by now
+                if pending_report && !in_reboot_wait && pre_stamp(h, i).1 < start_mono {
+                    classes.push("monotonic_clock_behind_start_while_report_pending");
+                }
                 if pending_report && !in_reboot_wait && pre_stamp(h, i).1 >= start_mono {
                     let now_wall = pre_stamp(h, i).0;
                     let now_mono = pre_stamp(h, i).1;
@@ -137,6 +140,14 @@ pub fn check_history(h: &Hist) -> Result<(bool, Vec<&'static str>), Failure> {
                 }
                 let f = pending_finish.unwrap() as i128 * 1000;
                 let want = now_wall - f - (now_mono - start_mono);
+                if now_mono < start_mono {
+                    return Err(failure(
+                        "waited-for-reboot-with-inconsistent-clocks",
+                        format!("WaitedForRebootDuration({d:?}) reported although the monotonic clock reads {} ns less than at the start of this state machine: with inconsistent clocks nothing is reported", start_mono - now_mono),
+                        h,
+                        around,
+                    ));
+                }
                 if now_wall < f || want < 0 || d.as_nanos() as i128 != want {
                     return Err(failure(
                         "waited-for-reboot-duration",
@@ -404,6 +415,10 @@ pub fn gen_case(t: &mut Tape) -> (Script, Vec<LifePlan>) {
         advance_ns: *t.pick(&[1_000_003u64, 1, 999, 1_000_000_000, 7_000_000_000]),
         wall_jump: if t.chance(1, 5) { Some(start_wall + *t.pick(&[2 * 86_400_000_000_000i128, 2 * 86_400_000_000_000 + 3_600_000_000_000, 3 * 86_400_000_000_000, -7_200_000_000_000, 3_000_000_000])) } else { None },
     });
+    // ... and the monotonic reading of the embedder's TimeSource may step back once (clocks inconsistent in the third way)
+    if t.chance(1, 3) {
+        s.mono_back = Some((t.choose(4), t.choose(6), 1 + t.choose(2_000_000_000) as u64 * 15));
+    }
     (s, lives)
 }
 
